@@ -186,7 +186,7 @@ def judge(ctx, P, kind, cfg, base_out, case):
             return lr, cls, detail
     if cfg is BASE:
         # baseline failures are reported after all kinds of the program are known (kind=all when
-        # every kind fails the same way)
+        # three or more kinds fail the same way)
         P.pending[kind] = (cfg, lr, cls, detail, case)
     else:
         report(ctx, P, kind, cfg, lr, cls, detail, option, case)
@@ -199,7 +199,7 @@ def flush_base(ctx, P, kinds):
         if kind in P.pending:
             groups.setdefault(P.pending[kind][2:4], []).append(kind)
     for (cls, detail), ks in groups.items():
-        if len(ks) == len(kinds) and len(kinds) >= 3:
+        if len(ks) >= 3 or (len(ks) == len(kinds) and len(kinds) >= 3):
             cfg, lr, _c, _d, case = P.pending[ks[0]]
             report(ctx, P, ks[0], cfg, lr, cls, detail, "any", case, all_kinds=True)
         else:
@@ -322,7 +322,7 @@ def pinned(ctx, name):
         else:
             bad.setdefault((cls, detail), []).append((kind, ld, w))
     for (cls, detail), lst in bad.items():
-        groups = [("all", lst[0])] if (len(lst) == len(kinds) and len(kinds) >= 3) else [(k, (k, l, w)) for k, l, w in lst]
+        groups = [("all", lst[0])] if len(lst) >= 3 else [(k, (k, l, w)) for k, l, w in lst]
         for kn, (kind, ld, w) in groups:
             sig = f"{cls}:{detail}:option=any:kind={kn}"
             if detail.startswith("cause="):
